@@ -518,3 +518,50 @@ func replayMain(args []string) int {
 	fmt.Println("not reproduced")
 	return 0
 }
+
+func nativeBatchMain(args []string) int {
+	if len(args) < 2 {
+		fmt.Println("usage: vcheck nativebatch <sub> <requests.json> [repo]")
+		return 3
+	}
+	repo := "/repo"
+	if len(args) > 2 {
+		repo = args[2]
+	}
+	b, err := os.ReadFile(args[1])
+	if err != nil {
+		fmt.Println(err)
+		return 3
+	}
+	var reqs []replayReq
+	if err := json.Unmarshal(b, &reqs); err != nil {
+		fmt.Println(err)
+		return 3
+	}
+	hs, err := discover("/verif/harness")
+	if err != nil {
+		fmt.Println(err)
+		return 3
+	}
+	res, out, err := nativeReplay(repo, hs, args[0], reqs)
+	if err != nil {
+		fmt.Println(err, out)
+		return 3
+	}
+	bad := 0
+	for _, rq := range reqs {
+		r := res[rq.ID]
+		fail := r.Status != "done"
+		for _, ev := range r.Events {
+			if strings.HasPrefix(ev, "assert-failed") || strings.HasPrefix(ev, "abort") || strings.HasPrefix(ev, "panic") {
+				fail = true
+			}
+		}
+		if fail {
+			bad++
+			fmt.Printf("%s status=%s events=%v\n", rq.ID, r.Status, r.Events)
+		}
+	}
+	fmt.Printf("nativebatch: %d requests, %d not clean\n", len(reqs), bad)
+	return 0
+}
